@@ -6,6 +6,8 @@ package main
 
 import (
 	"encoding/json"
+	"os"
+	"strconv"
 	"time"
 
 	c4eapp "github.com/chain4energy/c4e-chain/app"
@@ -20,6 +22,7 @@ import (
 	sdk "github.com/cosmos/cosmos-sdk/types"
 	authtypes "github.com/cosmos/cosmos-sdk/x/auth/types"
 	banktypes "github.com/cosmos/cosmos-sdk/x/bank/types"
+	"github.com/cosmos/cosmos-sdk/x/crisis"
 	stakingtypes "github.com/cosmos/cosmos-sdk/x/staking/types"
 	abci "github.com/tendermint/tendermint/abci/types"
 	"github.com/tendermint/tendermint/libs/log"
@@ -50,11 +53,23 @@ type TestApp struct {
 	ChainID string
 }
 
+// node-local settings that must not influence the state: whether x/crisis asserts the invariants at genesis
+// (--x-crisis-skip-assert-invariants) and how often it checks them afterwards (--inv-check-period); replicas differ in them
+type nodeOpts map[string]interface{}
+
+func (m nodeOpts) Get(k string) interface{} { return m[k] }
+
 func newBareApp() (*c4eapp.App, c4eapp.GenesisState) {
 	db := dbm.NewMemDB()
 	encoding := c4eapp.MakeEncodingConfig()
-	app := c4eapp.New(log.NewNopLogger(), db, nil, true, map[int64]bool{}, c4eapp.DefaultNodeHome, 0,
-		appparams.EncodingConfig(encoding), simapp.EmptyAppOptions{})
+	period := uint(0)
+	if v := os.Getenv("VERIF_INV_CHECK_PERIOD"); v != "" {
+		if n, err := strconv.Atoi(v); err == nil {
+			period = uint(n)
+		}
+	}
+	app := c4eapp.New(log.NewNopLogger(), db, nil, true, map[int64]bool{}, c4eapp.DefaultNodeHome, period,
+		appparams.EncodingConfig(encoding), nodeOpts{crisis.FlagSkipGenesisInvariants: os.Getenv("VERIF_CRISIS_SKIP") == "1"})
 	return app, c4eapp.NewDefaultGenesisState(encoding.Marshaler)
 }
 
